@@ -35,7 +35,7 @@ pub const LINKS: &[(&str, &str)] = &[
     ("reg-long", "[some text](d/3)"),
 ];
 
-pub const HOSTS: &[&str] = &["para", "item", "heading", "nested-item", "quote", "block-ref"];
+pub const HOSTS: &[&str] = &["para", "item", "heading", "nested-item", "quote", "block-ref", "quoted-item", "quoted-block-ref", "quoted-heading"];
 
 fn host_wrap(host: &str, s: &str) -> String {
     match host {
@@ -45,6 +45,9 @@ fn host_wrap(host: &str, s: &str) -> String {
         "nested-item" => format!("- a\n  - {} tail\n", s),
         "quote" => format!("> {} tail\n", s),
         "block-ref" => format!("{}\n", s),
+        "quoted-item" => format!("> - first\n> - {} tail\n> - last\n", s),
+        "quoted-block-ref" => format!("> before\n>\n> {}\n>\n> after\n", s),
+        "quoted-heading" => format!("> # {} tail\n>\n> text\n", s),
         _ => unreachable!(),
     }
 }
@@ -64,7 +67,7 @@ fn build(case: &str) -> String {
     let before = BEFORES.iter().find(|x| x.0 == b).unwrap().1;
     let prefix = PREFIXES.iter().find(|x| x.0 == p).unwrap().1;
     let link = LINKS.iter().find(|x| x.0 == l).unwrap().1;
-    let prefix = if h == "block-ref" { "" } else { prefix };
+    let prefix = if h == "block-ref" || h == "quoted-block-ref" { "" } else { prefix };
     let mut body = host_wrap(&h, &format!("{}{}", prefix, link));
     body.push_str("\n## last\n\nend\n");
     if after_crlf {
@@ -79,10 +82,10 @@ fn features(case: &str) -> Vec<String> {
     if b.starts_with("crlf") || after_crlf {
         f.push("crlf-before".into());
     }
-    if (p == "two-byte" || p == "astral" || p == "emph-nonascii") && h != "block-ref" {
+    if (p == "two-byte" || p == "astral" || p == "emph-nonascii") && h != "block-ref" && h != "quoted-block-ref" {
         f.push("non-ascii-before-link-on-line".into());
     }
-    if p == "astral" && h != "block-ref" {
+    if p == "astral" && h != "block-ref" && h != "quoted-block-ref" {
         f.push("astral-before-link-on-line".into());
     }
     if l.starts_with("wiki") {
@@ -97,10 +100,10 @@ fn features(case: &str) -> Vec<String> {
     if l == "empty" {
         f.push("empty-link-text".into());
     }
-    if h == "quote" {
+    if h.starts_with("quote") {
         f.push("link-in-quote".into());
     }
-    if h == "block-ref" {
+    if h == "block-ref" || h == "quoted-block-ref" {
         f.push("block-reference".into());
     }
     f
@@ -121,20 +124,21 @@ fn dest_span(src: &str, l: &LinkOcc) -> Option<(usize, usize)> {
     }
 }
 
-/// (start line, end line exclusive) of every top-level ATX heading, list and the lines inside lists
+/// lines of every heading that is not inside a list item (quotes are transparent: a heading in a quote
+/// is a section too) and (first line, last line) of every list
 fn block_lines(src: &str) -> (Vec<usize>, Vec<(usize, usize)>) {
     let mut headings = vec![];
     let mut lists = vec![];
-    let mut depth = 0;
+    let mut item_depth = 0;
     for (ev, r) in Parser::new_ext(src, md_options()).into_offset_iter() {
         match ev {
-            Event::Start(Tag::BlockQuote(_)) | Event::Start(Tag::Item) => depth += 1,
-            Event::End(TagEnd::BlockQuote(_)) | Event::End(TagEnd::Item) => depth -= 1,
-            Event::Start(Tag::Heading { .. }) if depth == 0 => headings.push(line_of(src, r.start)),
-            Event::Start(Tag::List(_)) if depth == 0 => {
+            Event::Start(Tag::Item) => item_depth += 1,
+            Event::End(TagEnd::Item) => item_depth -= 1,
+            Event::Start(Tag::Heading { .. }) if item_depth == 0 => headings.push(line_of(src, r.start)),
+            Event::Start(Tag::List(_)) => {
                 let end = r.end.min(src.len());
                 // the range of a list may include trailing blank lines: take its last non-blank character
-                let trimmed = src[r.start..end].trim_end().len();
+                let trimmed = src[r.start..end].trim_end_matches(|c: char| c.is_whitespace() || c == '>').len();
                 let last = r.start + trimmed.saturating_sub(1);
                 lists.push((line_of(src, r.start), line_of(src, last)));
             }
@@ -308,11 +312,17 @@ impl Engine for C13 {
                 let in_list = lists.iter().any(|(a, b)| line >= *a && line <= *b);
                 let offers_section = kinds.iter().any(|k| k == "refactor.rewrite.section.list");
                 let offers_list = kinds.iter().any(|k| k == "refactor.rewrite.list.type");
+                // a block reference (also inside a quote) offers "inline quote" on its own line
+                let is_ref_line = l.alone_in_para && !l.in_table && line == sl && lib.contains_key(resolve("", &l.dest).as_deref().unwrap_or("?"));
+                let offers_inline = kinds.iter().any(|k| k == "refactor.inline.reference.quote");
+                if is_ref_line != offers_inline {
+                    push("action-line", "reference", format!("line {} is{} the line of a block reference but 'inline quote' is{} offered there (kinds {:?}); text {:?}", line, if is_ref_line { "" } else { " not" }, if offers_inline { "" } else { " not" }, kinds, text));
+                }
                 if is_heading != offers_section {
                     push("action-line", "section", format!("line {} is{} a heading line but 'section to list' is{} offered there (kinds {:?}); text {:?}", line, if is_heading { "" } else { " not" }, if offers_section { "" } else { " not" }, kinds, text));
                 }
                 // blank lines inside a (loose) list belong to no block: nothing must be offered there
-                let blank = lines.get(line).map(|l| l.trim().is_empty()).unwrap_or(true);
+                let blank = lines.get(line).map(|l| l.trim().trim_start_matches('>').trim().is_empty()).unwrap_or(true);
                 if (in_list && !blank && !offers_list) || (!in_list && offers_list) {
                     push("action-line", "list", format!("line {} is{} inside a list but 'change list type' is{} offered there (kinds {:?}); text {:?}", line, if in_list { "" } else { " not" }, if offers_list { "" } else { " not" }, kinds, text));
                 }
